@@ -681,8 +681,8 @@ def engine_for(pid):
 # ----------------------------------------------------------------------------------- manifest texts
 NOT_APPLICABLE = {}
 
-_T = ("Lean 4 proof over an executable model whose data layer (SQL statements), websocket layer (onMessage + handlers), Mailbox/AppNamespace "
-      "/Server method bodies (open, close, add/get_messages, claim/release/allocate, open_mailbox, usage writers, prune_all_apps, dump_stats), "
+_T = ("Lean 4 proof over an executable model whose data layer (SQL statements), websocket layer (onMessage + handlers), Mailbox/AppNamespace/"
+      "Server method bodies (open, close, add/get_messages, claim/release/allocate, open_mailbox, usage writers, prune_all_apps, dump_stats), "
       "usage summaries and sweep timer "
       "are proved equal to translations regenerated from the source on every run + differential correspondence model<->code + property "
       "oracle on implementation traces")
@@ -701,8 +701,8 @@ _TIE = ("Trusted: Lean kernel (axioms of every listed theorem checked to be with
         "SQL statements of server.py; translate_ws.py / translate_wsbody.py: onMessage and all handle_* of server_websocket.py; "
         "translate_summ.py: the two usage-summary functions; translate_tap.py: expire()/TimerService; translate_srv.py: the bodies of twenty "
         "methods of Mailbox/AppNamespace/Server - everything the websocket handlers and the sweep call except AppNamespace.prune and "
-        "the search loop of _find_available_nameplate_id) with the "
-        "semantics Lean gives their output (Sql.lean, WsGuards.lean, PyWs.lean, PySum.lean, PyTap.lean, PySrv.lean) - for those parts the model is PROVED equal to the translation of the current source on every run (Tie/*.lean, "
+        "the search loop of _find_available_nameplate_id; translate_wire.py: constructors and construction sites from makeService down, the option table) with the "
+        "semantics Lean gives their output (Sql.lean, WsGuards.lean, PyWs.lean, PySum.lean, PyTap.lean, PySrv.lean, Wire.lean) - for those parts the model is PROVED equal to the translation of the current source on every run (Tie/*.lean, "
         "e.g. onMessage_eq_reach); the rest of the hand-written model (AppNamespace.prune, allocate's search loop, the registries of objects/listeners, onOpen/onClose, database.py) is tied "
         "to the code by differential execution on generated histories every run, not proved; impl.py runner; SQLite/CPython/Twisted/Autobahn "
         "modelled, not verified. Environment assumptions are exactly the fields of GSys.WFOp (fresh connection ids, monotone time, fresh "
